@@ -281,6 +281,58 @@ def run_case(case, acc):
                     pp, st = procs[pid]
                     t.spawn(pid, st, ppid=pp, comm=nasty_comm(pid))
                 pr = ps.Process(caller)
+        if case.get("vanish"):
+            # the same disturbance while walking *up*: the victim exits (and, with `reparent`, its children are handed to pid 1)
+            # at access k of parent() / parents(); the walk must end, and name only processes that were or are ancestors
+            victim, k = case["vanish"]
+            for name, fn in (("parent", lambda: pr.parent()), ("parents", lambda: pr.parents())):
+                before = {p: (q.ppid, q.start) for p, q in t.procs.items()}
+                cur, seen_up, cyclic = caller, set(), False
+                while cur in before:
+                    if cur in seen_up:
+                        cyclic = True
+                        break
+                    seen_up.add(cur)
+                    cur = before[cur][0]
+                if name == "parents" and cyclic:
+                    continue        # a cyclic chain upwards (self-parented root, ...): only children() is promised to terminate on those
+                base = len(vk.log)
+                def act_up(vk_, kind, path, victim=victim):
+                    if victim in t.procs:
+                        t.remove(victim)
+                    return None
+                vk.plan = {base + k: act_up}
+                saved, use_trace = use_trace, True
+                r = call(fn)
+                use_trace = saved
+                vk.plan = {}
+                after = {p: (q.ppid, q.start) for p, q in t.procs.items()}
+                acc.count("upward_walks_with_midwalk_vanish")
+                if r[0] == "budget":
+                    viols.append((f"nontermination:{name}:midwalk_vanish", ctx + f" exceeded {budget} lines"))
+                elif r[0] == "NoSuchProcess" and victim == caller:
+                    pass
+                elif r[0] == "NoSuchProcess" and r[1] != caller:
+                    viols.append((f"{name}_raised_NoSuchProcess_of_an_ancestor:midwalk_vanish", ctx + f" -> {r}"))
+                elif r[0] != "ok":
+                    viols.append((f"{name}_raised:{r[0]}:midwalk_vanish", ctx + f" -> {r}"))
+                else:
+                    got = [r[1].pid] if name == "parent" and r[1] is not None else ([] if name == "parent" else [x.pid for x in r[1]])
+                    anc = set()
+                    for tbl in (before, after):
+                        cur, seen_ = caller, set()
+                        while cur in tbl and cur not in seen_:
+                            seen_.add(cur)
+                            cur = tbl[cur][0]
+                            anc.add(cur)
+                    if not set(got) <= anc:
+                        viols.append((f"{name}_wrong:midwalk_vanish", ctx + f" got={got} ancestors before/after={sorted(anc)}"))
+                for p in list(t.procs):
+                    t.procs.pop(p)
+                for pid in sorted(procs):
+                    pp, st = procs[pid]
+                    t.spawn(pid, st, ppid=pp, comm=nasty_comm(pid))
+                pr = ps.Process(caller)
         if not case.get("vanish"):
             ps.pids()   # fresh lowest-pid knowledge, as the statement's rule is evaluated on the current table
             r = call(lambda: pr.parent())
@@ -369,9 +421,17 @@ TREE_SCRIPT = r"""
 import os, subprocess, sys, time
 depth = int(sys.argv[1])
 kids = []
+def spawn():
+    kids.append(subprocess.Popen([sys.executable, "-S", "-c", open(sys.argv[2]).read(), str(depth - 1), sys.argv[2]]))
 if depth > 0:
-    for _ in range(2 if depth == 2 else 1):
-        kids.append(subprocess.Popen([sys.executable, "-S", "-c", open(sys.argv[2]).read(), str(depth - 1), sys.argv[2]]))
+    spawn()
+    if depth == 2:
+        # the second child is forked by a worker thread that stays alive: the kernel files it under that *thread*
+        # (/proc/PID/task/TID/children), while its ppid is the process
+        import threading
+        done = threading.Event()
+        threading.Thread(target=lambda: (spawn(), done.set(), time.sleep(1000)), daemon=True).start()
+        done.wait(30)
 print("NODE", os.getpid(), os.getppid(), flush=True)
 while True:
     time.sleep(1000)
@@ -591,6 +651,12 @@ def run_shard(shard):
                               before={"1": [0, 1], "50": [1, 100], "60": [50, 200]}),
                          dict(procs={"1": [0, 1], "5": [1, 100], "6": [5, 300]}, caller=5, before={"1": [0, 1], "5": [1, 100], "6": [5, 50]})]:
                 run_case(case, acc)
+            # the parent (or grandparent) exits and is reaped at each access point of the walk, the orphan is re-parented
+            for victim in (5, 4):
+                for k_ in range(0, 9):
+                    for rep in (True, False):
+                        run_case(dict(procs={"1": [0, 1], "4": [1, 50], "5": [4, 100], "6": [5, 200]}, caller=6, vanish=[victim, k_],
+                                      reparent=rep, trace=True), acc)
             for case in [dict(procs={"1": [0, 1], "5": [1, 100], "6": [5, 200]}, caller=5, recycle=True),
                          dict(procs={"1": [0, 1], "5": [6, 100], "6": [5, 200]}, caller=5, recycle=True)]:
                 run_case(case, acc)
